@@ -1,10 +1,10 @@
 PROPERTIES = ['C03', 'C02']
 BOUNDS = {
     'quick': 'element type Tracked (non-trivial, every special member reports to the lifetime ledger); one operation from every content state: '
-             'copy+move elements at capacity 3 (second vector / source block size NB in {0,1,3}), move-only elements at capacity 2 (NB in {0,1}); pre-size NA in 0..CAP (enumerated); copy-only elements at capacity 2 from pre-size 1; '
+             'copy+move elements at capacity 3 (second vector / source block size NB in {0,1,3}), move-only elements at capacity 2 (NB in {0,1}); pre-size NA in 0..CAP (enumerated); copy-only elements and elements with defaulted (trivial) assignment but user-provided constructors/destructor at capacity 2 from pre-size 1; '
              'element values, object bytes before construction symbolic, positions / counts / new sizes symbolic (case-split); histories of 2 symbolic operations at capacity 2: '
              'static_vector from pre-size 1, one query per first operation (12 op codes), inplace_vector from every pre-size (6 op codes), copy+move elements',
-    'thorough': 'copy+move elements at capacities 0..3 with every (NA, NB) and at capacity 4 with NB in {0,4}; move-only and copy-only elements at capacity 3 (NB in {0,1,3}); '
+    'thorough': 'copy+move elements at capacities 0..3 with every (NA, NB) and at capacity 4 with NB in {0,4}; move-only and copy-only elements at capacity 3 (NB in {0,1,3}), defaulted-assignment elements at capacity 2 (every NB); '
                 'static_vector histories of 2 operations at capacity 2 (copy+move from pre-sizes 0 and 1, and from 2 with pop_back / clear / relocation first; the other flavours from pre-size 1) and of 3 operations at capacity 1 from the empty vector (copy+move), one query per admissible first operation; '
                 'inplace_vector histories of 3 operations at capacity 2 from pre-size 1 (all flavours) and of 2 at capacity 3 from every pre-size',
 }
@@ -65,11 +65,11 @@ def queries(tier, prop='C03'):
     only_na = {}
     nops = {0: 12, 1: 8, 2: 11}   # static_vector history op codes per flavour (driver.cpp SV_NOPS)
     if tier == 'quick':
-        grid = [(0, 3, (0, 1, 3)), (1, 2, (0, 1)), (2, 2, (0, 1))]   # (flavour, capacity, NB values of two-vector / range operations)
-        only_na = {2: (1,)}   # quick: copy-only elements from the middle pre-size only (every pre-size in the thorough tier)
+        grid = [(0, 3, (0, 1, 3)), (1, 2, (0, 1)), (2, 2, (0, 1)), (3, 2, (0, 1))]   # (flavour, capacity, NB values of two-vector / range operations)
+        only_na = {2: (1,), 3: (1,)}   # quick: copy-only elements from the middle pre-size only (every pre-size in the thorough tier)
         hist = [('q_sv_hist', 0, 2, 2, 1, f) for f in range(nops[0])] + [('q_iv_hist', 0, 2, 2, na, None) for na in (0, 1, 2)]
     else:
-        grid = [(0, 0, (0,)), (0, 1, (0, 1)), (0, 2, (0, 1, 2)), (0, 3, (0, 1, 2, 3)), (0, 4, (0, 4)), (1, 3, (0, 1, 3)), (2, 3, (0, 1, 3))]
+        grid = [(0, 0, (0,)), (0, 1, (0, 1)), (0, 2, (0, 1, 2)), (0, 3, (0, 1, 2, 3)), (0, 4, (0, 4)), (1, 3, (0, 1, 3)), (2, 3, (0, 1, 3)), (3, 2, (0, 1, 2))]
         hist = [('q_sv_hist', 0, 2, 2, na, f) for na in (0, 1) for f in range(nops[0])] + [('q_sv_hist', fl, 2, 2, 1, f) for fl in (1, 2) for f in range(nops[fl])]
         hist += [('q_sv_hist', 0, 2, 2, 2, f) for f in (1, 4, 7)]   # from the full vector: pop_back / clear / relocate first (the other first operations exceed the memory budget there)
         hist += [('q_sv_hist', 0, 1, 3, 0, f) for f in range(nops[0])]
@@ -99,4 +99,5 @@ def queries(tier, prop='C03'):
                         budget=300 if tier == 'quick' else 2400, ub=ub, nofunc=ub))
     for q_ in out:
         q_['lazy_trace'] = True   # verdict first, counterexample trace only when an obligation fails (engine/runner.py)
+        if q_['cfg'].get('FLAV') == 3: q_['cbmc_flags'] = ['--max-field-sensitivity-array-size', '256']   # defaulted assignment = memcpy through pointers: keep the ledger global field-sensitive
     return out
